@@ -166,6 +166,9 @@ def run_harness(ob, logdir):
         r["class"] = "inconclusive"; r["why"] = "timeout after %ds" % ob.timeout
     elif r["verdict"] is None:
         r["class"] = "inconclusive"; r["why"] = "no verdict (rc=%s; out of memory, build error or tool crash)" % rc
+    elif real_fail:
+        # a failed assertion found within the unwinding bound is a genuine trace even if other paths were cut
+        r["class"] = "fail"; r["why"] = "; ".join(sorted(set(f["description"] for f in real_fail))[:6])
     elif unwinding or unsupported:
         r["class"] = "inconclusive"
         r["why"] = "unwinding/unsupported-construct assertion failed: " + "; ".join(
